@@ -54,6 +54,10 @@ class Gen:
         pad = "  " * indent
         for _ in range(n):
             k = self.r.random()
+            if in_loop and self.r.random() < 0.12:
+                # break / continue anywhere inside a loop body: in if / else branches, when cases and when-else branches
+                out.append(pad + self.r.choice(["break", "break", "continue"]))
+                continue
             if k < 0.22:
                 if self.has("groups") and self.r.random() < 0.3:
                     out.append(pad + "match " + self.group(self.ev))
